@@ -125,6 +125,21 @@ theorem individualPage_total (showIndividuals : Bool) (letters : List UInt8) (in
     Total (individualPage generatedFlags showIndividuals letters indi) :=
   individualPage_total' generated_flags_safe showIndividuals letters indi
 
+/-- `EventDate` never indexes an empty date list (`IsBlank` guards `c.dates[0]`). -/
+theorem eventDate_total {α} (dates : List α) : Total (eventDate dates) := eventDate_total' dates
+
+/-- `IndividualDates.EventDates` takes `births[0]`, `baptisms[0]`, `deaths[0]`, `burials[0]` only
+    under the `len(…) > 0` case of the same list — for any four event lists. -/
+theorem eventDates_total {α} (births baptisms deaths burials : List α) :
+    Total (eventDates births baptisms deaths burials) := eventDates_total' births baptisms deaths burials
+
+/-- Place pages dereference `placesMap[key]`; the keys handed to the pages are the keys of that
+    map, so the entry is never nil — for any place map. -/
+theorem placePages_total {α} (m : List (Str × α)) : Total (placePages m) := placePages_total' m
+
+/-- the dereference itself is partial: a key that is not in the map panics in the same model -/
+theorem placePage_counterexample : (lookupPlace ([] : List (Str × Nat)) [97]).panicSite = some .placePage := by decide
+
 /-- `Document.Warnings()` never panics … -/
 theorem warnings_total (doc : Doc) : Total (warningsWalk generatedFlags doc) :=
   ⟨_, walkForest_spec generated_flags_safe doc doc⟩
